@@ -84,7 +84,7 @@ def gen_case(rng, root, family, tier):
     edited = None
     pool = W.pool()
     if family == "keys":
-        kind = rng.choice(["empty", "owners", "subset", "superset", "stranger", "nonsigner_only"])
+        kind = rng.choice(["empty", "owners", "subset", "superset", "stranger", "nonsigner_only", "twin_forgery", "twin_forgery"])
         others = [k for k in pool if k not in ch.owners]
         if kind == "empty":
             scn.keys = {}
@@ -94,6 +94,24 @@ def gen_case(rng, root, family, tier):
             k = rng.choice(others); scn.keys[k.keyid] = k.pub
         elif kind == "stranger":
             k = rng.choice(others); scn.keys = {k.keyid: k.pub}
+        elif kind == "twin_forgery" and [k for k in ch.owners if k.kind != "gpg"]:
+            # the layout carries, under an owner's key id, a signature made with ANOTHER key - one this very process has
+            # checked under that id before (a key id is a label: world.shadow_warmup); the verifier supplies the owner's
+            # genuine key: no valid signature by that key
+            o = rng.choice([k for k in ch.owners if k.kind != "gpg"])
+            tw = W.twin_of(o)
+            # (the links are forged the same way: whoever can do the one can do the other - with genuine links a cache
+            #  per key id would reject them and hide that the layout got through)
+            for s_ in ch.steps:
+                for ls in s_["links"]:
+                    if ls["signer"] and getattr(ls["signer"], "kind", "gpg") != "gpg" and ls["signer"].keyid in W.TWINS:
+                        ls["signer"] = W.twin_of(ls["signer"])
+            now_, tz_, params_ = scn.now, scn.tz, scn.params
+            scn = scen.build(ch, root, rng)
+            scn.now, scn.tz, scn.params = now_, tz_, params_
+            payload = scn.layout["signed"] if "signed" in scn.layout else json.loads(base64.b64decode(scn.layout["payload"]))
+            scn.layout = W.wrap(payload, ch.layout_fmt, [tw if k is o else k for k in ch.owners], scn.table)
+            base_content = copy.deepcopy(scn.layout)
         elif kind == "nonsigner_only":
             k = rng.choice(others)
             # the stranger's key under an owner's key id: right id, wrong material
